@@ -16,6 +16,8 @@ Enc(r) == CASE r.op = "Begin"   -> "B:" \o r.c \o ":" \o r.res
             [] r.op = "Park"    -> "K:" \o r.c
             [] r.op = "Pre"     -> "P:" \o r.c
             [] r.op = "End"     -> "E:" \o r.c \o ":" \o r.out
+            [] r.op = "EndMid"  -> "X:" \o r.c \o ":" \o r.out
+            [] r.op = "EndFin"  -> "F:" \o r.c
             [] r.op = "Tick"    -> "T"
             [] r.op = "Metrics" -> "M"
 GNext == Next /\ hist' = Append(hist, Enc(last'))
